@@ -86,7 +86,7 @@ func (r *HarnessResult) merge(o *HarnessResult) {
 	}
 	for _, f := range o.Failures {
 		sig := failureSig(f)
-		if r.sigSeen[sig] < 3 {
+		if r.sigSeen[sig] < 8 {
 			r.sigSeen[sig]++
 			r.Failures = append(r.Failures, f)
 		}
@@ -377,7 +377,7 @@ func (ex *Exec) recordFailure(label, kind, detail string) {
 	ex.res.FailCount[label]++
 	f := &Failure{Harness: ex.res.Harness, Label: label, Kind: kind, Detail: detail, Tags: copyTags(ex.tags), Stack: ex.stackNames()}
 	sig := failureSig(f)
-	if ex.res.sigSeen[sig] >= 3 {
+	if ex.res.sigSeen[sig] >= 2 {
 		return
 	}
 	r := ex.solver.Check()
